@@ -267,8 +267,19 @@ def _shape_eval(e, env, vals, depth=0):
         raise _NoEval("un")
     if t == "paren":
         return ev(e[1])
-    if t == "block" and e[1] and e[1][-1][0] == "expr" and not e[1][-1][2] and len(e[1]) == 1:
-        return ev(e[1][-1][1])
+    if t == "block" and e[1] and e[1][-1][0] == "expr" and not e[1][-1][2]:
+        env2 = dict(env)
+        for st in e[1][:-1]:
+            if st[0] == "let" and st[2] is not None and st[1][0] == "pident":
+                env2[st[1][1]] = st[2]
+            elif st[0] == "let" and st[2] is not None and st[1][0] == "ptuple" and is_node(st[2]) and st[2][0] == "tuple":
+                for sub, val in zip(st[1][1], st[2][1]):
+                    if sub[0] == "pident":
+                        env2[sub[1]] = val
+            else:
+                raise _NoEval("block statement")
+        # earlier lets may refer to outer names only: evaluate them eagerly in the outer environment
+        return _shape_eval(e[1][-1][1], env2, vals, depth + 1)
     if t == "cast":
         return ev(e[1])
     if t == "bin":
@@ -299,6 +310,62 @@ def _yields_err(stmts):
 
 
 FORM_DOMAIN = {"RD": lambda r, c: r == 1, "VD": lambda r, c: c == 1, "MD": lambda r, c: True}
+
+
+def out_allocation_table(arm, forms):
+    """decide the shape arguments of the arm's `<DForm>::from_element(.., default)` over the operand-shape table.
+    forms: storage forms of the operands (1 or 2).  returns (verdict, detail)"""
+    binders = [p[2] for p in arm.pats]
+    if not all(binders) or len(binders) != len(forms) or not any(f in FORM_DOMAIN for f in forms):
+        return "uninterpretable", "binders/forms"
+    body = arm.body
+    stmts = body[1] if is_node(body) and body[0] == "block" else [["expr", body, False]]
+    env = {}
+    for st in stmts:
+        if st[0] == "let" and st[2] is not None:
+            pat = st[1]
+            if pat[0] == "pident":
+                env[pat[1]] = st[2]
+            elif pat[0] == "ptuple":
+                for i, sub in enumerate(pat[1]):
+                    if sub[0] == "pident":
+                        env[sub[1]] = ["field", st[2], str(i)] if not (is_node(st[2]) and st[2][0] == "tuple") else st[2][1][i]
+    allocs = []
+    for c in find(body, "call"):
+        pth = path_of(c[1]) or ""
+        m = re.match(r"^(DMatrix|DVector|RowDVector)::from_element$", pth)
+        if m and len(c[2]) >= 2:
+            allocs.append((m.group(1), c[2][:-1]))
+    if not allocs:
+        return "none", ""
+    dom = (1, 2, 3)
+    wrong, n = [], 0
+    mat_ix = [i for i, f in enumerate(forms) if f in FORM_DOMAIN]
+    import itertools
+    spaces = []
+    for f in forms:
+        if f in FORM_DOMAIN:
+            spaces.append([(r, c) for r in dom for c in dom if FORM_DOMAIN[f](r, c)])
+        else:
+            spaces.append([(1, 1)])
+    for combo in itertools.product(*spaces):
+        shapes = [combo[i] for i in mat_ix]
+        if len(set(shapes)) != 1:
+            continue            # unequal shaped operands are the guard's business (R4)
+        exp_r, exp_c = shapes[0]
+        vals = {b: sh for b, sh in zip(binders, combo)}
+        for kind, args in allocs:
+            try:
+                got = tuple(_shape_eval(a, env, vals) for a in args)
+            except _NoEval as ex:
+                return "uninterpretable", str(ex)
+            n += 1
+            want = (exp_r, exp_c) if kind == "DMatrix" else (exp_r * exp_c,)
+            if got != want:
+                wrong.append("%s operand -> %s::from_element%s" % ("x".join(map(str, shapes[0])), kind, got))
+    if wrong:
+        return "wrong", "%d of %d, e.g. %s" % (len(wrong), n, "; ".join(wrong[:3]))
+    return "exact", "%d shape assignments" % n
 
 
 def shape_guard_truth_table(arm, g1, g2):
@@ -495,6 +562,27 @@ def run(F, rep, tier):
                                           sname, g1, g2, "; ".join(repr(e) for e in kk.effects)[:160]), "%s (%s)" % (sname, fs.crate),
                                       sample={"struct": sname, "guard_in_arm": guard, "guard_truth_table": [tt, ttd], "shape_asserting_kernel": asserting})
     rep.floor("C01-R3", "binary kernels normalised and compared with the oracle", n_kernels, 150)
+    # ---- R8: the output buffer an arm allocates has the operand's shape (unary and binary arms with a dynamic output form)
+    rep.rule("C01-R8", "output allocation: `<DForm>::from_element(shape.., default)` in a dispatch arm is given the shape of the (equal-shaped) matrix operand(s), decided over the finite shape table")
+    n8 = 0
+    seen8 = set()
+    for dkey, arms in sorted(disp.items()):
+        for a in arms:
+            forms8 = [p_[1] for p_ in a.pats]
+            if not (1 <= len(forms8) <= 2) or "*" in forms8 or not any(f in FORM_DOMAIN for f in forms8):
+                continue
+            v8, d8 = out_allocation_table(a, forms8)
+            if v8 in ("none", "uninterpretable"):
+                continue
+            k8 = "%s:%s:%s" % (dkey[1], "/".join(str(p_[0]) for p_ in a.pats), "x".join(forms8))
+            if k8 in seen8:
+                continue
+            seen8.add(k8)
+            n8 += 1
+            rep.check(v8 == "exact", "C01-R8", k8,
+                      "%s, arm (%s): the output buffer is allocated with the wrong shape (%s): the result does not have the operand's shape and the element-wise kernel silently truncates or pads" % (dkey[1], ", ".join("%s %s" % (p_[0], p_[1]) for p_ in a.pats), d8),
+                      "%s (%s)" % (dkey[1], dkey[0]), sample={"dispatcher": dkey[1], "forms": forms8, "verdict": d8})
+    rep.floor("C01-R8", "output allocations decided over the shape table", n8, 100)
     rep.floor("C01-R4", "shape guards decided exactly over the finite shape table", n_tt[0], 40)
     if unrec:
         rep.bad("C01-R3", "unrecognised-kernels:%s" % ",".join(sorted(unrec)), "kernels the normal-form evaluator cannot read (extend the idiom table): %s" % unrec)
